@@ -62,7 +62,12 @@ class AsyncWorld:
         self.log = base.QuietLogger()
         kw = dict(async_mode='asgi', logger=self.log)
         kw.update(server_kwargs or {})
-        self.server = engineio.AsyncServer(**kw)
+        pos = kw.pop('_positional', None)
+        if pos is not None:
+            # options given by position, in the documented order after async_mode
+            self.server = engineio.AsyncServer(kw.pop('async_mode'), *pos, **kw)
+        else:
+            self.server = engineio.AsyncServer(**kw)
         self.app = engineio.ASGIApp(self.server, **(app_kwargs or {}))
         self.beh = behaviour or base.Behaviour()
         self.events = []      # (kind, sid, arg, vtime, step)
@@ -237,6 +242,25 @@ class AsyncWorld:
         self.tasks[handle] = t
         return t
 
+    def cancel(self, handle):
+        """The gateway cancels the task of a request (what ASGI servers do when the client has hung up)."""
+        t = self.tasks.get(handle)
+        if t is not None and not t.done():
+            vclock.set_current(self.clock)
+            with self.loop.enter():
+                t.cancel()
+            handle.cancelled = True
+
+    def ws_release_send(self, ws):
+        """The peer starts reading again: writes parked by ws.stall_send complete."""
+        ws.stall_send = False
+        vclock.set_current(self.clock)
+        with self.loop.enter():
+            for f in getattr(ws, '_stall_futs', []):
+                if not f.done():
+                    f.set_result(None)
+        ws._stall_futs = []
+
     def _never_fut(self):
         f = self.loop.create_future()
         self._never.append(f)
@@ -361,6 +385,12 @@ class AsyncWorld:
                 if ws.server_closed or ws.client_closed:
                     sent.append(dict(ev, _refused=True))
                     raise OSError('websocket is closed')
+                if getattr(ws, 'stall_send', False):
+                    # back-pressure: the peer is not reading, the gateway's send does not complete until it does
+                    ws.stalled = getattr(ws, 'stalled', 0) + 1
+                    f = w.loop.create_future()
+                    ws._stall_futs = getattr(ws, '_stall_futs', []) + [f]
+                    await f
                 k = getattr(ws, 'nsend', 0)
                 ws.nsend = k + 1
                 fa = getattr(ws, 'fail_send_at', None)
